@@ -5,7 +5,7 @@ import subprocess
 
 import gen
 import vlib
-from constructs import CONSTRUCTS, long_jump
+from constructs import CONSTRUCTS, long_jump, with_family
 from checks import c01
 
 LEVEL = "exploration"
@@ -23,6 +23,7 @@ def programs(tier):
             if kind == "match" and n > 300:
                 continue
             out.append((f"long-{kind}:{n}", long_jump(n, kind)))
+    out += with_family(tier)
     seen = set()
     k = 0
     for fam, p in c01.families("quick"):
@@ -35,6 +36,16 @@ def programs(tier):
             continue
         out.append((f"c01:{fam}", s))
     return out
+
+
+def input_class(fam):
+    """class of the failing INPUT used in violation keys"""
+    if fam.startswith(("construct", "long")):
+        return fam
+    parts = fam.split(":")
+    if parts[0] == "with":  # with:<body kind>:<context>:pad<n>
+        return f"with:{parts[1]}:" + ("long-body" if parts[2].startswith("long-") else "plain")
+    return parts[0] + ":" + parts[1]
 
 
 def run(chk):
@@ -66,7 +77,7 @@ def run(chk):
         for v in VERSIONS[:-1]:
             k = f"p{i}v{v.replace('.', '_')}"
             r = res.get(k)
-            cls = fam if fam.startswith(("construct", "long")) else fam.split(":")[0] + ":" + fam.split(":")[1]
+            cls = input_class(fam)
             if r is None or r["status"] != "ok":
                 chk.violation(f"not-compiled-for:{v}:{cls}", {"src": src, "target": v, "result": r}, f"{fam}: target {v} does not compile what 3.11 compiles ({(r or {}).get('status')})")
                 continue
@@ -74,6 +85,20 @@ def run(chk):
             if o != b:
                 chk.violation(f"behaviour-differs:{v}:{cls}", {"src": src, "target": v, "outcome": o, "outcome_3.11": b, "msg": runs[k].get("msg")},
                               f"{fam}: under {v} {o}, under 3.11 {b} ({runs[k].get('msg', '')[:100]})")
+    # While the default target itself mishandles a construct (a known finding keyed per version above), a
+    # regression of one of the other targets would hide behind that finding.  The non-default targets must
+    # also agree with each other: any disagreement means at least one of them differs from the default.
+    for i, (fam, src) in enumerate(progs):
+        if not fam.startswith(("with:", "construct:with")):
+            continue
+        ref = runs.get(f"p{i}v3_10")
+        if ref is None or ref.get("exc") == "INTERPRETER-DIED":
+            continue  # no usable second reference (reported above against 3.11)
+        for v in VERSIONS[:-2]:
+            r = runs.get(f"p{i}v{v.replace('.', '_')}")
+            if r is not None and vlib.outcome(r) != vlib.outcome(ref):
+                chk.violation(f"differs-from-3.10:{v}:{input_class(fam)}", {"src": src, "target": v, "other": "3.10", "outcome": vlib.outcome(r), "outcome_3.10": vlib.outcome(ref)},
+                              f"{fam}: under {v} {vlib.outcome(r)}, under 3.10 {vlib.outcome(ref)}")
     # the real `erg --py-command P file.er` path (ErgMode::Execute) for a small set x 5 interpreters
     exe, _ = vlib.build("mc_core")
     real = 0
@@ -110,14 +135,15 @@ def replay(path):
     if not v:
         print(w)
         return 1
-    items = [{"id": f"r{x.replace('.', '_')}", "src": w["src"], "mode": "compile", "target": x} for x in (v, "3.11")]
+    other = w.get("other", "3.11")
+    items = [{"id": f"r{x.replace('.', '_')}", "src": w["src"], "mode": "compile", "target": x} for x in (v, other)]
     res, _ = vlib.compile_batch(items, "c13replay")
     outs = {}
-    for x in (v, "3.11"):
+    for x in (v, other):
         k = f"r{x.replace('.', '_')}"
         if res[k]["status"] == "ok":
             outs[x] = vlib.outcome(vlib.py_run([{"id": k, "pyc": res[k]["pyc"]}], "c13replay", version=x)[k])
         else:
             outs[x] = res[k]["status"]
     print(outs)
-    return 1 if outs[v] != outs["3.11"] else 0
+    return 1 if outs[v] != outs[other] else 0
